@@ -127,8 +127,12 @@ Definition murmur3_h1 (data : list Z) : Z :=
   h1.
 
 (* ---- token.go: partitioners ------------------------------------------------------------------ *)
-(* token.go:64 murmur3Partitioner.Hash: murmur3Token(murmur.Murmur3H1(partitionKey)) *)
-Definition murmur3_token (key : list Z) : Z := murmur3_h1 key.
+(* token.go:65 murmur3Partitioner.Hash:
+   h1 := murmur.Murmur3H1(partitionKey); if h1 == math.MinInt64 { h1 = math.MaxInt64 }; murmur3Token(h1)
+   (math.MinInt64 / math.MaxInt64 are standard-library constants: -2^63 and 2^63-1) *)
+Definition murmur3_token (key : list Z) : Z :=
+  let h1 := murmur3_h1 key in
+  if h1 =? - 2 ^ 63 then 2 ^ 63 - 1 else h1.
 (* token.go:79 murmur3Token.Less: m < token.(murmur3Token) *)
 Definition murmur3_less (a b : Z) : bool := a <? b.
 
